@@ -473,17 +473,19 @@ func (c *child) collectFrom(final bool, proc string, rds map[string]*sdkmetric.M
 					class = "f64gauge"
 				}
 				var owners []string
+				quiet := map[string]bool{}
 				c.mu.Lock()
 				for o, p := range c.ident {
 					if p.instName() == m.Name && dataClass(p.kind()) == class && p.Unit == m.Unit && p.Desc == m.Description {
 						owners = append(owners, o)
+						quiet[o] = p.Quiet
 					}
 				}
 				c.mu.Unlock()
 				sort.Strings(owners)
 				for _, o := range owners {
 					points = append(points, o)
-					if len(owners) > 1 || c.ident[o].Quiet {
+					if len(owners) > 1 || quiet[o] {
 						n = -1 // a shared instrument (identical identity): the sum is shared too; quiet: uses are not logged
 					}
 					sums = append(sums, map[string]any{"inst": sdk + "/" + o, "name": o, "n": n})
